@@ -817,8 +817,101 @@ fn clip_json(v: Value) -> Value {
             }
             Value::Array(out)
         }
-        Value::Object(m) => Value::Object(m.into_iter().map(|(k, v)| (k, clip_json(v))).collect()),
+        Value::Object(m) => {
+            // samples are for readers: the escaped text is kept, the hex twin is dropped
+            let has_text = m.contains_key("text");
+            Value::Object(m.into_iter().filter(|(k, _)| !(has_text && k == "hex")).map(|(k, v)| (k, clip_json(v))).collect())
+        }
         other => other,
+    }
+}
+
+// ------------------------------------------------------------------------------------------
+// fidelity pass (DESIGN.md 2.2): the inputs of a run are collected, replayed by `exec_real` built
+// against the real `ais` package under each real feature set, and the canonical outcomes must equal
+// what the wrapper copy of that configuration produces in this process.
+
+static COLLECTOR: std::sync::Mutex<Option<Vec<Input>>> = std::sync::Mutex::new(None);
+pub const COLLECT_CAP: usize = 60_000;
+
+pub fn collector_enable() {
+    *COLLECTOR.lock().unwrap() = Some(Vec::new());
+}
+
+/// called by the checks that feed the fidelity pass; cheap when the collector is off
+pub fn collect(input: &Input) {
+    if let Ok(mut g) = COLLECTOR.try_lock() {
+        if let Some(v) = g.as_mut() {
+            if v.len() < COLLECT_CAP && matches!(input, Input::History { .. } | Input::Payload { .. } | Input::Unarmor { .. }) {
+                v.push(input.clone());
+            }
+        }
+    }
+}
+
+impl Ctx {
+    pub fn fidelity_pass(&mut self) {
+        let inputs = match COLLECTOR.lock().unwrap().take() {
+            Some(v) if !v.is_empty() => v,
+            _ => return,
+        };
+        let dir = format!("{}/target/fidelity", VERIF_DIR);
+        let _ = std::fs::create_dir_all(&dir);
+        let corpus = format!("{}/{}.corpus", dir, self.prop);
+        let mut text = String::new();
+        for i in &inputs {
+            match i {
+                Input::History { lines } => {
+                    text.push_str(&format!("H {}\n", lines.len()));
+                    for l in lines {
+                        text.push_str(&format!("{} {}\n", l.decode as u8, hex(&l.bytes)));
+                    }
+                }
+                Input::Payload { bytes } => text.push_str(&format!("P {}\n", hex(bytes))),
+                Input::Unarmor { data, fill } => text.push_str(&format!("U {} {}\n", fill, hex(data))),
+                _ => {}
+            }
+        }
+        if std::fs::write(&corpus, text).is_err() {
+            self.notes.push("fidelity pass skipped: cannot write the corpus".into());
+            return;
+        }
+        let mut compared = 0u64;
+        for cfg in crate::adapter::configs() {
+            let bin = format!("{}/target/real_{}/release/exec_real", VERIF_DIR, cfg.name());
+            if !std::path::Path::new(&bin).exists() {
+                self.notes.push(format!("fidelity pass skipped for {}: {} not built", cfg.name(), bin));
+                continue;
+            }
+            let out = match std::process::Command::new(&bin).arg(&corpus).output() {
+                Ok(o) if o.status.success() => String::from_utf8_lossy(&o.stdout).to_string(),
+                Ok(o) => infra_error(&format!("fidelity pass: {} exited with {:?}: {}", bin, o.status.code(), String::from_utf8_lossy(&o.stderr))),
+                Err(e) => infra_error(&format!("fidelity pass: cannot run {}: {}", bin, e)),
+            };
+            let mut real = out.lines();
+            for i in &inputs {
+                let mine: Vec<String> = match i {
+                    Input::History { lines } => cfg.canon_history(&lines.iter().map(|l| (l.bytes.clone(), l.decode)).collect::<Vec<_>>()),
+                    Input::Payload { bytes } => vec![cfg.canon_parse(bytes)],
+                    Input::Unarmor { data, fill } => vec![cfg.canon_unarmor(data, *fill)],
+                    _ => vec![],
+                };
+                for m in mine {
+                    let r = real.next().unwrap_or("<missing line>");
+                    compared += 1;
+                    if r != m {
+                        infra_error(&format!(
+                            "fidelity pass: the wrapper copy of the {} configuration and the real `ais` package built with that feature set disagree on input {} : wrapper {:?} vs real {:?}. The in-process three-configuration trick misrepresents this tree; no verdict.",
+                            cfg.name(),
+                            crate::util::clip(&i.to_json().to_string(), 600),
+                            crate::util::clip(&m, 300),
+                            crate::util::clip(r, 300)
+                        ));
+                    }
+                }
+            }
+        }
+        self.notes.push(format!("fidelity pass: {} inputs replayed by exec_real built against the real package under std / alloc / none; {} outcomes compared with the in-process wrapper copies, all identical", inputs.len(), compared));
     }
 }
 
